@@ -28,7 +28,7 @@ Definition C01_projection_statement : Prop :=
    (over the same assignment: no auxiliary variable is created), hence the projection statement above.
    affine_model m: well-formed domains, every declared variable used, sides and objective plain arithmetic (no
    division by zero), every constraint affine after flatten/simplify and not taken by the logic-constraint test,
-   published types inside the declared types. *)
+   declared bounds not NaN and integer ranges within i32. *)
 Theorem C01_projection_affine :
   forall (m : model) (L : linmodel), affine_model m -> compile m = inr L ->
     forall rho : string -> R, sat_model m rho <-> sat_linear L rho.
